@@ -80,10 +80,11 @@ pub unsafe fn ordered_try_write(locks: &[&dyn RawLock]) -> bool {
 				if lock.raw_try_write() {
 					locked.set(locked.get() + 1);
 				} else {
-					for lock in &locks[0..i] {
-						// safety: this lock was already acquired
-						lock.raw_unlock_write();
-					}
+					// the rollback releases everything acquired so far, so the
+					// unwind handler must not release it a second time
+					locked.set(0);
+					// safety: these locks were already acquired
+					attempt_to_recover_writes_from_panic(&locks[0..i]);
 					return false;
 				}
 			}
@@ -109,10 +110,11 @@ pub unsafe fn ordered_try_read(locks: &[&dyn RawLock]) -> bool {
 				if lock.raw_try_read() {
 					locked.set(locked.get() + 1);
 				} else {
-					for lock in &locks[0..i] {
-						// safety: this lock was already acquired
-						lock.raw_unlock_read();
-					}
+					// the rollback releases everything acquired so far, so the
+					// unwind handler must not release it a second time
+					locked.set(0);
+					// safety: these locks were already acquired
+					attempt_to_recover_reads_from_panic(&locks[0..i]);
 					return false;
 				}
 			}
